@@ -18,7 +18,8 @@
    packable well-formed track shows its rendering with the PAN masked and nothing else changed). A track the field
    cannot parse again is shown by its first and last four characters (repair of F31; the fall-back branch of t_filter);
    C18_track_filter_total: every output of a track filter is the rendering of a track whose PAN went through the PAN
-   filter, or the PAN filter applied to the whole text - never the raw text. *)
+   filter, or the PAN filter applied to the whole text - never the raw text; the same for String fields that carry track data
+   (C18_string_track_filter, C18_string_track_filter_total; the sfilter operation of the trk topic ties the model). *)
 From Coq Require Import List Bool Strings.String.
 Import ListNotations.
 From Iso Require Import Model.Base Model.Describe Proofs.DescribeProofs Gen.ErrorSites Gen.Filters.
@@ -143,6 +144,19 @@ Proof.
 Qed.
 Print Assumptions C18_track_filter_total.
 
+(* String fields that carry track data (fields 35 / 36 / 45 of the shipped specifications are String fields with the track
+   filters): a String field holding the rendering of a track is shown exactly as a track field holding that track, so the
+   three masking theorems above apply to it; and whatever text it holds, the output is the rendering of a track whose
+   PAN went through the PAN filter or the PAN filter applied to the whole text *)
+From Iso Require Import Proofs.StringTrack.
+Theorem C18_string_track_filter : forall k p inp t, s_track_filter k p inp (t_render k t) = t_filter k p inp t.
+Proof. exact string_track_filter. Qed.
+Print Assumptions C18_string_track_filter.
+Theorem C18_string_track_filter_total : forall k p inp v,
+  (exists tr, s_track_filter k p inp v = t_render k (mask_pan tr)) \/ s_track_filter k p inp v = pan_filter inp.
+Proof. exact string_track_filter_total. Qed.
+Print Assumptions C18_string_track_filter_total.
+
 (* the premises are satisfiable: 4111111111111111=2512101123456 under ASCII / LL 37 *)
 Definition p35 : pspec := {| ps_kind := KString; ps_enc := EncASCII; ps_pref := PVar PfASCII 2; ps_len := 37; ps_pad := PadNone; ps_packer := PkDefault |}.
 Definition t35 : tstate := {| tk_fixed := false; tk_fc := []; tk_pan := [x34; x31; x31; x31; x31; x31; x31; x31; x31; x31; x31; x31; x31; x31; x31; x31];
@@ -154,3 +168,10 @@ Proof.
   split; [reflexivity|]. split; [cbn; lia|]. split; [left; reflexivity|]. split; [eexists; repeat split; reflexivity|].
   split; [split; reflexivity|]. split; [|split; reflexivity]. split; [discriminate|]. split; [reflexivity|]. split; reflexivity.
 Qed.
+
+(* field 35 as a String field: the text 4111111111111111=2512101123456 is shown with the PAN masked *)
+Example C18_ex_string_track :
+  let v := [x34; x31; x31; x31; x31; x31; x31; x31; x31; x31; x31; x31; x31; x31; x31; x31; x3d; x32; x35; x31; x32; x31; x30; x31; x31; x32; x33; x34; x35; x36] in
+  t_render T2 t35 = v /\
+  s_track_filter T2 p35 v v = [x34; x31; x31; x31; x2a; x2a; x2a; x2a; x31; x31; x31; x31; x3d; x32; x35; x31; x32; x31; x30; x31; x31; x32; x33; x34; x35; x36].
+Proof. split; vm_compute; reflexivity. Qed.
